@@ -1,4 +1,5 @@
-import IronCalc.Text.NumberProofs
+import IronCalc.Text.NumberComplete
+import IronCalc.Props.C21
 import IronCalc.Generated.C19Locales
 /-
   C19 — Typed numbers are recognised exactly.
@@ -96,6 +97,144 @@ theorem recognise_complete_plain (ℓ : Locale) (curs : List (List Char)) (hl : 
   unfold parseFormattedNumber
   simp only [hpct, hcur, hdate, parseNumber_complete hl h]
 
+/-! ### completeness of the currency productions -/
+
+/-- the currency lists of every locale of the running code (regenerated table) satisfy the
+    non-shadowing condition `CursOk`: the decimal separator is neither white space nor `%`; every
+    symbol begins and ends with a character that is not white space, a digit, a sign, the decimal
+    separator or `%`; different symbols differ in their first and in their last character -/
+theorem locales_curs_ok :
+    IronCalc.Generated.C19.locales.all (fun p => CursOk p.2 (currencies p.2)) = true := by decide
+
+/-- **completeness, `symbol number`**: for every locale with sane separators and currency list,
+    every currency `cur` of the list, every well-formed finite number `n` (signed or not, with or
+    without group separators, fraction, exponent) and any white space before, between and after,
+    `[ws] cur [ws] literal [ws]` is recognised as exactly `n` with the currency format (or the
+    scientific one when `n` has an exponent) -/
+theorem recognise_complete_currency_before (ℓ : Locale) (curs : List (List Char))
+    (hl : SepsOk ℓ.dec ℓ.grp = true) (hc : CursOk ℓ curs = true) (cur : List Char) (hcur : cur ∈ curs)
+    (n : Num) (hwf : WellFormed ℓ.grp n) (pre w post : List Char)
+    (hpre : ∀ c ∈ pre, isWs c = true) (hw : ∀ c ∈ w, isWs c = true) (hpost : ∀ c ∈ post, isWs c = true) :
+    parseFormattedNumber ℓ curs (pre ++ (cur ++ (w ++ n.render ℓ.dec)) ++ post) =
+      some (.num n false false, if n.isSci then .scientific else .currencyPrefix cur n.hasDot) :=
+  complete_currency_before hl hc hcur hwf hpre hw hpost
+
+/-- **completeness, `- symbol number`** (the number itself unsigned): recognised as `−n` -/
+theorem recognise_complete_currency_negated (ℓ : Locale) (curs : List (List Char))
+    (hl : SepsOk ℓ.dec ℓ.grp = true) (hc : CursOk ℓ curs = true) (cur : List Char) (hcur : cur ∈ curs)
+    (n : Num) (hwf : WellFormed ℓ.grp n) (hsign : n.sign = none) (pre w post : List Char)
+    (hpre : ∀ c ∈ pre, isWs c = true) (hw : ∀ c ∈ w, isWs c = true) (hpost : ∀ c ∈ post, isWs c = true) :
+    parseFormattedNumber ℓ curs (pre ++ ('-' :: (cur ++ (w ++ n.render ℓ.dec))) ++ post) =
+      some (.num n true false, if n.isSci then .scientific else .currencyPrefix cur n.hasDot) :=
+  complete_currency_negated hl hc hcur hwf hsign hpre hw hpost
+
+/-- **completeness, `number symbol`** -/
+theorem recognise_complete_currency_after (ℓ : Locale) (curs : List (List Char))
+    (hl : SepsOk ℓ.dec ℓ.grp = true) (hc : CursOk ℓ curs = true) (cur : List Char) (hcur : cur ∈ curs)
+    (n : Num) (hwf : WellFormed ℓ.grp n) (pre w post : List Char)
+    (hpre : ∀ c ∈ pre, isWs c = true) (hw : ∀ c ∈ w, isWs c = true) (hpost : ∀ c ∈ post, isWs c = true) :
+    parseFormattedNumber ℓ curs (pre ++ (n.render ℓ.dec ++ (w ++ cur)) ++ post) =
+      some (.num n false false, if n.isSci then .scientific else .currencySuffix cur n.hasDot) :=
+  complete_currency_after hl hc hcur hwf hpre hw hpost
+
+/-! ### completeness of the date productions -/
+
+/-- **completeness of `parse_date`**: every date rendering (three separator-free fields in ISO order
+    or in the locale's order, numeric or named month, valid date, serial in range) is recognised with
+    exactly its serial and format; conversely `parseDate_sound` -/
+theorem recognise_complete_parse_date (ℓ : Locale) (t : List Char) (serial : Nat) (fmt : List Char)
+    (h : IsDateRendering ℓ t serial fmt) : parseDate ℓ t = some (serial, fmt) :=
+  parseDate_complete h
+
+/-- **completeness, date production at the top level**: a date rendering whose first character is
+    not white space, `-` or the first character of a currency symbol and whose last character is a
+    digit (`DateEdgeOk`, decidable) is stored as its serial with its date format -/
+theorem recognise_complete_date (ℓ : Locale) (curs : List (List Char)) (hc : CursOk ℓ curs = true)
+    (t : List Char) (serial : Nat) (fmt : List Char) (h : IsDateRendering ℓ t serial fmt)
+    (he : DateEdgeOk curs t = true) :
+    parseFormattedNumber ℓ curs t = some (.serial serial, .date fmt) :=
+  date_toplevel hc he (parseDate_complete h)
+
+/-- **every numeric ISO rendering** `yyyy sep m sep d` (four year digits, one or two month and day
+    digits, separator `/`, `-` or `.`) of a calendar date that exists and whose serial is in the
+    supported range is stored as that serial with the format `yyyy sep m|mm sep d|dd` -/
+theorem recognise_complete_date_iso (ℓ : Locale) (curs : List (List Char)) (hc : CursOk ℓ curs = true)
+    (sep : Char) (hsep : sep = '/' ∨ sep = '-' ∨ sep = '.') (yT mT dT : List Char)
+    (hy : allDigits yT = true) (hyl : yT.length = 4)
+    (hm : allDigits mT = true) (hml : mT.length = 1 ∨ mT.length = 2)
+    (hd : allDigits dT = true) (hdl : dT.length = 1 ∨ dT.length = 2)
+    (serial : Nat)
+    (hser : IronCalc.Dates.toSerial ⟨yearOf (digitsVal yT), digitsVal mT, digitsVal dT⟩ = some (serial : Int))
+    (h1 : 1 ≤ serial) (h2 : serial ≤ 2958465) :
+    parseFormattedNumber ℓ curs (yT ++ sep :: mT ++ sep :: dT) =
+      some (.serial serial, .date (['y', 'y', 'y', 'y'] ++ [sep] ++ monthFmt mT ++ [sep] ++ dayFmt dT)) := by
+  have hyne : yT ≠ [] := by intro h0; subst h0; simp at hyl
+  apply recognise_complete_date ℓ curs hc
+  · refine ⟨sep, yT, mT, dT, dT, mT, yT, dayFmt dT, monthFmt mT, yearFmt (digitsVal yT), digitsVal dT, digitsVal mT,
+      yearOf (digitsVal yT), hsep, rfl, fieldOk_digits hsep hy, fieldOk_digits hsep hm, fieldOk_digits hsep hd,
+      Or.inl ⟨by simp [isoYear, utf8Len_digits hy, hyl, hy], rfl, rfl, rfl, hm, hd, rfl⟩,
+      parseDay_digits hd hdl, parseMonth_digits ℓ hm hml, parseYear_digits hy (Or.inr hyl), hser, h1, h2⟩
+  · exact dateEdgeOk_fields hc hy hyne hd (len_ne_nil hdl)
+
+/-- **every numeric rendering in the locale's order** (`d sep m sep y` when the locale's short date
+    starts with the day, else `m sep d sep y`; one or two day and month digits; two or four year digits,
+    two-digit years read as 1930–2029) of an existing date with a serial in range is stored as that
+    serial, with the matching format -/
+theorem recognise_complete_date_locale (ℓ : Locale) (curs : List (List Char)) (hc : CursOk ℓ curs = true)
+    (sep : Char) (hsep : sep = '/' ∨ sep = '-' ∨ sep = '.') (yT mT dT : List Char)
+    (hy : allDigits yT = true) (hyl : yT.length = 2 ∨ yT.length = 4)
+    (hm : allDigits mT = true) (hml : mT.length = 1 ∨ mT.length = 2)
+    (hd : allDigits dT = true) (hdl : dT.length = 1 ∨ dT.length = 2)
+    (serial : Nat)
+    (hser : IronCalc.Dates.toSerial ⟨yearOf (digitsVal yT), digitsVal mT, digitsVal dT⟩ = some (serial : Int))
+    (h1 : 1 ≤ serial) (h2 : serial ≤ 2958465) :
+    parseFormattedNumber ℓ curs
+        (if ℓ.dayFirst then dT ++ sep :: mT ++ sep :: yT else mT ++ sep :: dT ++ sep :: yT) =
+      some (.serial serial,
+        .date (if ℓ.dayFirst then dayFmt dT ++ [sep] ++ monthFmt mT ++ [sep] ++ yearFmt (digitsVal yT)
+               else monthFmt mT ++ [sep] ++ dayFmt dT ++ [sep] ++ yearFmt (digitsVal yT))) := by
+  have hyne : yT ≠ [] := by intro h0; subst h0; simp at hyl
+  cases hdf : ℓ.dayFirst
+  · simp only [Bool.false_eq_true, if_false]
+    apply recognise_complete_date ℓ curs hc
+    · refine ⟨sep, mT, dT, yT, dT, mT, yT, dayFmt dT, monthFmt mT, yearFmt (digitsVal yT), digitsVal dT, digitsVal mT,
+        yearOf (digitsVal yT), hsep, rfl, fieldOk_digits hsep hm, fieldOk_digits hsep hd, fieldOk_digits hsep hy,
+        Or.inr (Or.inr ⟨by simp only [isoYear, utf8Len_digits hm, Bool.and_eq_false_iff, beq_eq_false_iff_ne]; left; omega, hdf, rfl, rfl, rfl, rfl⟩),
+        parseDay_digits hd hdl, parseMonth_digits ℓ hm hml, parseYear_digits hy hyl, hser, h1, h2⟩
+    · exact dateEdgeOk_fields hc hm (len_ne_nil hml) hy hyne
+  · simp only [if_true]
+    apply recognise_complete_date ℓ curs hc
+    · refine ⟨sep, dT, mT, yT, dT, mT, yT, dayFmt dT, monthFmt mT, yearFmt (digitsVal yT), digitsVal dT, digitsVal mT,
+        yearOf (digitsVal yT), hsep, rfl, fieldOk_digits hsep hd, fieldOk_digits hsep hm, fieldOk_digits hsep hy,
+        Or.inr (Or.inl ⟨by simp only [isoYear, utf8Len_digits hd, Bool.and_eq_false_iff, beq_eq_false_iff_ne]; left; omega, hdf, rfl, rfl, rfl, rfl⟩),
+        parseDay_digits hd hdl, parseMonth_digits ℓ hm hml, parseYear_digits hy hyl, hser, h1, h2⟩
+    · exact dateEdgeOk_fields hc hd (len_ne_nil hdl) hy hyne
+
+/-- **month names** (regenerated table, all 6 locales × 24 names): every short and long month name
+    is read by `parse_month` as its month; is free of `/` and `-` (so it can be a field with these
+    separators; with `.` only when it has no `.`: the French short names `janv.` … do); is never taken
+    for an ISO year (fix F19f); and starts
+    with a character that is not white space, `-`, or the first character of a currency symbol -/
+theorem month_names_table :
+    IronCalc.Generated.C19.locales.all (fun p =>
+      (List.range 12).all fun i =>
+        [p.2.monthsShort.getD i [], p.2.months.getD i []].all fun nm =>
+          ((parseMonth p.2 nm).map (·.1) == some (i + 1)) && fieldOk '/' nm && fieldOk '-' nm && !isoYear nm &&
+          (match nm.head? with
+           | some h => !isWs h && h != '-' && (currencies p.2).all (fun c => c.head? != some h)
+           | none => false)) = true := by
+  decide +kernel
+
+/-- a recognised date is a date of the calendar: its serial converts back (C21) to the year, month
+    and day that were typed -/
+theorem recognised_date_is_calendar_date (ℓ : Locale) (t : List Char) (serial : Nat) (fmt : List Char)
+    (h : parseDate ℓ t = some (serial, fmt)) :
+    ∃ ymd : IronCalc.Dates.YMD, IronCalc.Dates.fromSerial serial = some ymd ∧
+      IronCalc.Dates.toSerial ymd = some (serial : Int) := by
+  obtain ⟨_, _, _, _, _, _, _, _, _, _, day, month, year, _, _, _, _, _, _, hser, h1, h2⟩ := parseDate_sound h
+  exact ⟨⟨year, month, day⟩,
+    IronCalc.Dates.C21_date_roundtrip ⟨year, month, day⟩ serial hser h1 (by unfold IronCalc.Dates.maxSerial; exact h2), hser⟩
+
 /-- **the sign is preserved**: the recognised literal is negative exactly when the text starts
     with `-` (no strictness needed) -/
 theorem sign_preserved (dec grp : Char) (t : List Char) (n : Num) (h : parseNumber dec grp t = some n) :
@@ -156,6 +295,31 @@ theorem format_kind_percent (ℓ : Locale) (curs : List (List Char)) (s p : List
     simp only [Option.some.injEq, Prod.mk.injEq] at h
     exact ⟨n, h.1.symm, h.2.symm⟩
 
+/-- **format kinds, currency before**: a `symbol#,##0[.00]` format is attached only to a text that,
+    trimmed, is `symbol rest` or `-symbol rest` with `symbol` in the currency list and `rest`
+    (trimmed) a number without exponent; the value is that number (negated in the second case),
+    not divided by 100; the format has decimals exactly when a decimal separator was typed
+    (no strictness needed) -/
+theorem format_kind_currency_prefix (ℓ : Locale) (curs : List (List Char)) (s c : List Char) (v : Value) (d : Bool)
+    (h : parseFormattedNumber ℓ curs s = some (v, .currencyPrefix c d)) :
+    c ∈ curs ∧ ∃ n negated p, v = .num n negated false ∧ d = n.hasDot ∧ n.isSci = false ∧
+      stripPrefix (if negated then '-' :: c else c) (trim s) = some p ∧
+      parseNumber ℓ.dec ℓ.grp (trim p) = some n := by
+  obtain ⟨cur, hm, hstep⟩ := currency_kind_from_loop h (Or.inl ⟨c, d, rfl⟩)
+  obtain ⟨hc, hrest⟩ := currencyStep_prefix_kind hstep
+  subst hc
+  exact ⟨hm, hrest⟩
+
+/-- **format kinds, currency after**: a `#,##0[.00]symbol` format is attached only to `rest symbol` -/
+theorem format_kind_currency_suffix (ℓ : Locale) (curs : List (List Char)) (s c : List Char) (v : Value) (d : Bool)
+    (h : parseFormattedNumber ℓ curs s = some (v, .currencySuffix c d)) :
+    c ∈ curs ∧ ∃ n p, v = .num n false false ∧ d = n.hasDot ∧ n.isSci = false ∧
+      stripSuffix c (trim s) = some p ∧ parseNumber ℓ.dec ℓ.grp (trim p) = some n := by
+  obtain ⟨cur, hm, hstep⟩ := currency_kind_from_loop h (Or.inr ⟨c, d, rfl⟩)
+  obtain ⟨hc, hrest⟩ := currencyStep_suffix_kind hstep
+  subst hc
+  exact ⟨hm, hrest⟩
+
 /-- a recognised date is a date serial in the supported range with a date format -/
 theorem format_kind_date (ℓ : Locale) (curs : List (List Char)) (s : List Char) (serial : Nat) (k : Kind)
     (h : parseFormattedNumber ℓ curs s = some (.serial serial, k)) :
@@ -177,12 +341,12 @@ theorem recognised_is_finite (dec grp : Char) (t : List Char) (n : Num) (h : par
       exact hok.2
     · cases h
 
-/-- defect F19f (known finding, found by the oracle): in a month-first locale a four-byte month name
-    in first position is taken for an ISO year: `July-20-2020` is not a date while `March-20-2020` is -/
+/-- defect F19f repaired: in a month-first locale a four-byte month name in first position is no
+    longer taken for an ISO year: `July-20-2020` is a date like `March-20-2020` -/
 theorem F19f_four_byte_month_name_first :
     (IronCalc.Generated.C19.locales.lookup "en").map
       (fun l => ((parseDate l "July-20-2020".toList).isSome, (parseDate l "March-20-2020".toList).isSome))
-    = some (false, true) := by decide +kernel
+    = some (true, true) := by decide +kernel
 
 /-! ### non-vacuity and the decided witnesses -/
 
@@ -212,6 +376,28 @@ example : (do
           (parseFormattedNumber l (currencies l) "1/1/+1".toList).isNone,
           (parseFormattedNumber l (currencies l) "0100-01-01".toList).isNone)) = some (true, true, true, true) := by
   decide
+
+/-- the hypotheses of the currency completeness theorems are met: `1,234.5` is a well-formed
+    number of `en` (groups, fraction), and the recogniser does store `- $ 1,234.5 ` as −1234.5 -/
+example : WellFormed ',' ⟨none, "1,234".toList, true, "5".toList, none⟩ :=
+  { sign := Or.inl rfl
+    int := ⟨['1'], ",234".toList, rfl, by unfold AllDigits; decide,
+      Groups.cons (by decide) (by decide) (by decide) Groups.nil, fun _ => by simp⟩
+    frac := by unfold AllDigits; decide
+    noDot := by intro h; cases h
+    mant := by decide
+    exp := trivial
+    finite := by decide }
+
+example : (do
+    let l ← IronCalc.Generated.C19.locales.lookup "en"
+    let r ← parseFormattedNumber l (currencies l) " -$ 1,234.5 ".toList
+    pure (r.1.isNegative, r.2 == .currencyPrefix ['$'] true)) = some (true, true) := by decide
+
+/-- the hypotheses of `recognise_complete_date_locale` are met (de, `29.02.24`): an existing date,
+    two-digit year read as 2024, serial 45351 in range -/
+example : IronCalc.Dates.toSerial ⟨yearOf (digitsVal "24".toList), digitsVal "02".toList, digitsVal "29".toList⟩
+    = some 45351 := by decide +kernel
 
 /-- a leap day typed in ISO layout is the serial C21 gives it -/
 example : (do
